@@ -123,9 +123,27 @@ def linear_form(pattern, flags):
         eff = p.state.flags
         classes = []
         items = _atoms(list(p), eff, classes, True)
-        return {'items': items, 'classes': classes, 'flags': int(eff), 'pattern': pattern}
+        return {'items': items, 'classes': classes, 'flags': int(eff), 'pattern': pattern,
+                'raw_items': [list(i) for i in items]}
     except (Unsupported, re.error, RecursionError) as e:
         return {'unsupported': f'{type(e).__name__}: {e}', 'pattern': pattern}
+
+
+def normalise(form, mode):
+    """Normal form *under the way the pattern is applied*: with `match` / `fullmatch` the attempt
+    starts at position 0, so a leading `^` is redundant and is dropped; with `fullmatch` the
+    pattern must end at the end of the string, so a missing end anchor is made explicit as `\\Z`.
+    (`raw_items` keeps the unnormalised sequence; the harness compares both with the engine.)"""
+    if 'items' not in form:
+        return form
+    items = [list(i) for i in form['raw_items']]
+    if mode in ('match', 'fullmatch'):
+        while items and items[0] == ['bos']:
+            items.pop(0)
+    if mode == 'fullmatch' and not (items and items[-1][0] == 'eos'):
+        items.append(['eos', 'bigZ'])
+    form['items'] = items
+    return form
 
 
 # ---------------------------------------------------------------- call sites (ast)
@@ -226,6 +244,7 @@ def extract(repo):
         form = linear_form(pat.pattern, pat.flags)
         form['name'] = name
         form['mode'] = method
+        normalise(form, method)
         form['applied_in'] = func
         if method not in ('match', 'fullmatch', 'search') and 'unsupported' not in form:
             form['unsupported'] = f'applied with .{method}'
